@@ -61,7 +61,7 @@ def plan(tier, seed, jobs):
             specs.append({"kind": "random", "n": 200, "seed": seed, "j": j, "budget_s": 55})
     else:
         for j in range(jobs * 4):
-            specs.append({"kind": "random", "n": 5000, "seed": seed, "j": j, "budget_s": 600})
+            specs.append({"kind": "random", "n": 5000, "seed": seed, "j": j, "budget_s": 200})
     return specs
 
 
